@@ -369,6 +369,35 @@ pub fn apply_op(op: &Op, top: bool) {
                 noop();
             }
         }
+        Op::ClearSlots { owner, leave, unadopt, keep } => {
+            let o = if *owner >= 0x8000 {
+                let m = wd.model.borrow();
+                m.accessible().into_iter().filter(|&o| !m.objs[o as usize].loose).max_by_key(|&o| (m.objs[o as usize].slots.len(), u32::MAX - o))
+            } else {
+                let hs = wd.model.borrow().handles();
+                pick(*owner, hs.len()).map(|i| hs[i].1)
+            };
+            let Some(o) = o else { return noop() };
+            let mut guard = 0;
+            loop {
+                let n = {
+                    let m = wd.model.borrow();
+                    if m.objs[o as usize].st != St::Alive { 0 } else { m.objs[o as usize].slots.len() }
+                };
+                if n <= *leave as usize || guard > 48 {
+                    break;
+                }
+                // the object may become inaccessible when its own self handles go
+                if !wd.model.borrow().accessible().contains(&o) {
+                    break;
+                }
+                remove_slot(o, n - 1, *unadopt, *keep && guard < 2);
+                guard += 1;
+            }
+            if guard == 0 {
+                noop();
+            }
+        }
         Op::UniqueRoot(sel) => {
             let hs = wd.model.borrow().handles();
             let Some(i) = pick(*sel, hs.len()) else { return noop() };
